@@ -18,7 +18,7 @@ import (
 
 func init() {
 	simrt.Register(&simrt.Scenario{
-		Prop: "C11", Name: "session-histories", Count: tiered(250, 25000),
+		Prop: "C11", Name: "session-histories", Count: tiered(400, 25000),
 		Run: c11Run, MaxOps: 8 << 20, Horizon: 8 * time.Hour,
 		Doc: "one session driven as gRPC drives it (Accept re-entered at once, Dial sometimes called while a connection is open) through a tape-chosen history of connect / transfer / close-by-client / close-by-server / close-by-both / relay-outage events; first pairing at version 2 (or 1: no switch); finally a second, unpaired client with only the passphrase",
 	})
@@ -36,7 +36,7 @@ func c11Run(rc *simrt.RunCtx) {
 	st.eager = true
 	st.planBytes = func(string, int) int { return 16 + rc.Pick(30000, "wl.plan") }
 	rounds := 2 + rc.Pick(4, "wl.rounds")
-	events := []string{"client-close", "server-close", "both-close", "relay-outage"}
+	events := []string{"client-close", "server-close", "both-close", "relay-outage", "lossy-reconnect"}
 	rc.Knob("case", fmt.Sprintf("maxV=%d rounds=%d", maxV, rounds))
 	passSID, _ := st.S.data.SID() // the passphrase-derived rendezvous
 	// nobody closes on completion by itself: the history decides
@@ -168,6 +168,13 @@ func c11Run(rc *simrt.RunCtx) {
 			go func() { si.conn.Close(); d <- struct{}{} }()
 			<-d
 			<-d
+		case "lossy-reconnect":
+			// the relay drops messages for a while and the client ends the
+			// connection in the middle of that: the reconnect (GBN and Noise
+			// handshakes) happens over a lossy relay and may fail a few times
+			rl.lossy(rc.Now()+time.Duration(5+rc.Pick(20, "wl.lossy"))*time.Second, 100+100*rc.Pick(3, "wl.lossrate"))
+			time.Sleep(time.Duration(rc.Pick(2000, "wl.lossy-close-at")) * time.Millisecond)
+			ci.conn.Close()
 		case "relay-outage":
 			d := time.Duration(3+rc.Pick(20, "wl.outage")) * time.Second
 			rl.outage(rc.Now() + d)
